@@ -103,6 +103,43 @@ func ruleC12_2(c *Ctx, r *Rep) {
 			}
 		}
 		r.Check("C12.2", "C12.2:duplicate-key@"+sp.fn, fn.Pos(), okDup, "unique violation on save → ErrExists", "a unique-key violation on save (two creates racing) is not mapped to ErrExists: the loser gets Unknown instead of AlreadyExists")
+		// ... and nothing classifies the save error before that test in a way a unique violation can satisfy
+		for _, ret := range returnsOf(fn) {
+			if !isGlobalLoad(retLast(ret), "ErrExists") {
+				continue
+			}
+			conds := edgeConds(ret.Block())
+			var errV ssa.Value
+			for _, cd := range conds {
+				if call, isCall := strip(cd.V).(*ssa.Call); isCall && cd.Pol && call.Call.StaticCallee() != nil && call.Call.StaticCallee().Name() == "isSqlDuplicateKeyError" && len(call.Call.Args) == 1 {
+					errV = resolve(call.Call.Args[0])
+				}
+			}
+			if errV == nil {
+				continue
+			}
+			for _, cd := range conds {
+				call, isCall := strip(cd.V).(*ssa.Call)
+				if !isCall || call.Call.StaticCallee() == nil {
+					continue
+				}
+				cal := call.Call.StaticCallee()
+				if cal.Name() == "isSqlDuplicateKeyError" {
+					continue
+				}
+				onErr := false
+				for _, a := range call.Call.Args {
+					if resolve(a) == errV {
+						onErr = true
+					}
+				}
+				if !onErr {
+					continue
+				}
+				disjoint := in(cal.Name(), "IsNotFound", "IsNotSingular", "IsNotLoaded", "IsValidationError") || (fnPkgPath(cal) == "errors" && cal.Name() == "Is")
+				r.Check("C12.2", "C12.2:duplicate-key-first:"+cal.Name()+"@"+sp.fn, call.Pos(), disjoint, "", "the save error is classified by "+cal.Name()+" before the duplicate-key test: a unique violation (which is a constraint error) is answered by that branch and never reaches ErrExists, so the loser of a create race gets the wrong status")
+			}
+		}
 		// the created row is live
 		for _, s := range c.findStmts(sp.fn, sp.table, "create") {
 			lv := s.Mut("live", "set")
@@ -368,7 +405,9 @@ func kindOfValidatorEnv(fn *ssa.Function, env map[*ssa.Parameter]ssa.Value, dept
 		}
 	}
 	if depth < 2 && lastCtx != nil {
-		for _, ci := range callsIn(fn, false, func(cal *ssa.Function, _ ssa.CallInstruction) bool { return lastCtx.inModule(cal) && len(cal.Blocks) > 0 }) {
+		for _, ci := range callsIn(fn, false, func(cal *ssa.Function, _ ssa.CallInstruction) bool {
+			return lastCtx.inModule(cal) && len(cal.Blocks) > 0
+		}) {
 			cal := ci.Common().StaticCallee()
 			ne := map[*ssa.Parameter]ssa.Value{}
 			for k, b := range env {
@@ -865,8 +904,14 @@ func ruleC13_3(c *Ctx, r *Rep) {
 		}
 		for _, a := range cands {
 			if dependsOnCall(a, oldest.Terms[0].Call) && sources(a)["field:PublishedAt"] {
-				okB = true
-				wm[valKey(a)] = true
+				// the row's published_at ITSELF (a rounded / shifted copy moves the boundary across the very message it
+				// was read from)
+				if u, isU := resolve(a).(*ssa.UnOp); isU && u.Op == token.MUL {
+					if fa, isFA := u.X.(*ssa.FieldAddr); isFA && fieldName(fa.X.Type(), fa.Field) == "PublishedAt" {
+						okB = true
+						wm[valKey(a)] = true
+					}
+				}
 			}
 		}
 	}
@@ -1393,7 +1438,9 @@ func ruleC12_2chain(c *Ctx, r *Rep) {
 		if !(pk == "ent/schema" || pk == "ent" || pk == "actions") || c.EntShape().isGenerated(f) || c.testSupport(f) {
 			continue
 		}
-		for _, ci := range callsIn(f, false, func(cal *ssa.Function, _ ssa.CallInstruction) bool { return fnPkgPath(cal) == "fmt" && cal.Name() == "Errorf" }) {
+		for _, ci := range callsIn(f, false, func(cal *ssa.Function, _ ssa.CallInstruction) bool {
+			return fnPkgPath(cal) == "fmt" && cal.Name() == "Errorf"
+		}) {
 			args := ci.Common().Args
 			format, isC := constString(args[0])
 			if !isC || len(args) < 2 {
@@ -1460,6 +1507,9 @@ func mayBeStorageError(c *Ctx, v ssa.Value) bool {
 		case *ssa.ChangeInterface:
 			return walk(x.X, d+1)
 		case *ssa.UnOp:
+			if g, ok := x.X.(*ssa.Global); ok && x.Op == token.MUL && g.Pkg != nil && strings.Contains(g.Pkg.Pkg.Path(), "/mmmbbb/") {
+				return false // a sentinel error of the module (ErrExists, ErrNotFound, ...): made here, not by storage
+			}
 			if al, ok := x.X.(*ssa.Alloc); ok && x.Op == token.MUL {
 				sts := allocStores(al)
 				if len(sts) == 0 {
